@@ -1,16 +1,39 @@
-(* Case type and comparison functions evaluated by the C17 correspondence harness. *)
+(* Case types and comparison functions evaluated by the C17 correspondence harness.  The model is
+   instantiated at the facts re-read from the source on this run (Gen/VersionedShape.v). *)
 From Coq Require Import ZArith NArith String List. Import ListNotations.
-From TP Require Export Base.PyVal Base.PyEq Ser.Versioned.
+From TP Require Export Base.PyVal Base.PyEq Ser.Versioned Ser.VersionedDeser Gen.VersionedShape.
+
+(* the integer literals of convert_dict as the source has them now (the pinned ones when the recogniser
+   does not know the shape: the bridging lemma gen_cd_params_ok fails in that case anyway) *)
+Definition chk_params : cd_params := if gen_cd_recognised then gen_cd_params else std_cd_params.
+
+(* ---- stream convert_dict *)
 Definition case := (dict * list mapping * res pyval)%type.
 Definition model (c : case) : res pyval :=
   let '(d, maps, obs) := c in
-  match convert_dict std_fn d maps with Ok r => Ok (PDict r) | Raise e => Raise e end.
+  match convert_dict std_fn chk_params d maps with Ok r => Ok (PDict r) | Raise e => Raise e end.
 Definition unmodelled (c : case) : bool :=
   match model c with Raise Unmodelled => true | _ => false end.
 (* the statement's domain: the document carries an int version >= 1 *)
-Definition in_domain (c : case) : bool :=
-  let '(d, maps, obs) := c in
+Definition doc_in_domain (d : dict) : bool :=
   match dict_get d version_key with Some (PNum (NInt z)) => Z.leb 1 z | _ => false end.
+Definition in_domain (c : case) : bool := let '(d, maps, obs) := c in doc_in_domain d.
 Definition mismatch (c : case) : bool :=
   let '(d, maps, obs) := c in
   in_domain c && negb (unmodelled c) && negb (res_val_eqb_weak (model c) obs).
+
+(* ---- stream deser-state: public state of the instance deserialize_structure_internal builds for a Versioned
+   class with Anything fields, through Deserializer.deserialize / deserialize_structure *)
+Definition dcase := (entry * vclass * dopts * dict * list mapping * res pyval)%type.
+Definition state_attrs (st : dict) : list (pystr * pyval) :=
+  map (fun kv => match fst kv with PStr s => (s, snd kv) | _ => (s2p "<non-str key>", snd kv) end) st.
+Definition dmodel (c : dcase) : res pyval :=
+  let '(e, cl, o, d, maps, obs) := c in
+  match deser_internal std_fn chk_params gen_prelude gen_deser_sites gen_init_shape e cl o maps d with
+  | Ok st => Ok (PStruct (s2p "V") (state_attrs st))
+  | Raise ex => Raise ex
+  end.
+Definition dunmodelled (c : dcase) : bool := match dmodel c with Raise Unmodelled => true | _ => false end.
+Definition dmismatch (c : dcase) : bool :=
+  let '(e, cl, o, d, maps, obs) := c in
+  doc_in_domain d && negb (dunmodelled c) && negb (res_val_eqb_weak (dmodel c) obs).
